@@ -10,6 +10,7 @@ DISPLAY_FMT = "core::fmt::Display::fmt"
 PAD_INTEGRAL = "core::fmt::Formatter::<'a>::pad_integral"
 PRECISION = "core::fmt::Formatter::<'a>::precision"
 WRITE_FMT = "core::fmt::Formatter::<'a>::write_fmt"
+WRITE_STR = "core::fmt::Formatter::<'a>::write_str"
 FORMAT = "alloc::fmt::format"
 
 
@@ -187,7 +188,10 @@ def quantity_fmt(ctx, config, U, amt):
                 mag_ok = len(pieces) == 3 and pieces[0][0] == "arg" and pieces[0][2] in (a, T.canon(("neg", a)), T.canon(("abs", a)))
                 good = (mag_ok and pieces[0][1] == "new_display" and pieces[0][3] == prec and pieces[0][4] == DEFAULT_OPTS
                         and pieces[1] == ("lit", " ")
-                        and pieces[2][0] == "arg" and pieces[2][1] == "new_display" and pieces[2][2] == T.canon(u) and pieces[2][3] is None
+                        # `{unit}` and `{unit.symbol()}` are the same text: a `{}` placeholder formats with default options, and
+                        # Display for a unit is its symbol under string formatting (rules unit-fmt / forwarder)
+                        and pieces[2][0] == "arg" and pieces[2][1] == "new_display" and pieces[2][2] in (T.canon(u), T.canon(S.app("Unit::symbol", u)))
+                        and pieces[2][3] is None
                         and pieces[2][4] == DEFAULT_OPTS)
                 ctx.ob("qty-fmt", inst, good,
                        "text is %s; expected {|amount|%s} ' ' {unit} — the amount (or its negation / absolute value), one space, the unit last, "
@@ -252,11 +256,11 @@ def rate_fmt(ctx, config, U):
             if atom[0] == "isvar" and atom[2] in ("Break", "Continue"):
                 x = atom[1]
                 # branch(write_fmt(f, ARGS))
-                if x[0] == "app" and x[3] and x[3][0][0] == "app" and x[3][0][1] == WRITE_FMT:
+                if x[0] == "app" and x[3] and x[3][0][0] == "app" and x[3][0][1] in (WRITE_FMT, WRITE_STR):
                     w = x[3][0]
                     if w not in writes:
                         writes.append(w)
-        if t[0] == "app" and t[1] == WRITE_FMT:
+        if t[0] == "app" and t[1] in (WRITE_FMT, WRITE_STR):
             writes.append(t)
         case = "term symbol %s, per symbol %s%s" % ("empty" if gd[Tt] else "non-empty", "empty" if gd[Pe] else "non-empty",
                                                       "" if gd[Pe] else (", multiple == 1" if gd[M] else ", multiple != 1"))
@@ -266,7 +270,11 @@ def rate_fmt(ctx, config, U):
             for w in writes:
                 if w[3][0] != f:
                     raise FmtShape("write to something other than the caller's formatter")
-                pieces += abstract(w[3][1])
+                if w[1] == WRITE_STR:
+                    # `f.write_str(s)` writes s verbatim — the text of `write!(f, "{}", s)`
+                    pieces += [("lit", w[3][1][1])] if w[3][1][0] == "str" else [disp(w[3][1])]
+                else:
+                    pieces += abstract(w[3][1])
         except FmtShape as e:
             ctx.fail("rate-fmt", inst, str(e), where)
             continue
